@@ -375,6 +375,23 @@ def run(cx):
             return [(k[0], (k[1] | frozenset(conds))) if k[0] == "all" else k for k in base] if not conds or all(k[0] == "all" for k in base) else _raise(_Und("filter over a mixed collection"))
         if isinstance(coll, ast.BinOp) and isinstance(coll.op, ast.Add):
             return _elements(coll.left, at, depth + 1) + _elements(coll.right, at, depth + 1)
+        if isinstance(coll, ast.Call) and isinstance(coll.func, ast.Attribute) and is_name(coll.func.value, "self") and not coll.keywords:
+            # a private method whose body is one `return <collection>`: read the collection with the arguments put in
+            cls_ = enclosing(init_multi_o, (ast.ClassDef,))
+            h = next((m_ for m_ in cls_.body if isinstance(m_, FUNC) and m_.name == coll.func.attr), None) if cls_ is not None else None
+            body = [b_ for b_ in (h.body if h is not None else []) if not (isinstance(b_, ast.Expr) and isinstance(b_.value, ast.Constant))]
+            if h is not None and len(body) == 1 and isinstance(body[0], ast.Return) and body[0].value is not None:
+                ps_ = [a_.arg for a_ in h.args.args][1:]
+                if len(ps_) == len(coll.args) and all(isinstance(a_, ast.Name) for a_ in coll.args):
+                    from sa.core import clone as _cl
+                    expr = _cl(body[0].value)
+                    ren = dict(zip(ps_, [a_.id for a_ in coll.args]))
+                    inner_targets = {x_.id for c_ in ast.walk(expr) if isinstance(c_, ast.comprehension) for x_ in ast.walk(c_.target) if isinstance(x_, ast.Name)}
+                    if not (set(ren.values()) & inner_targets):
+                        for x_ in ast.walk(expr):
+                            if isinstance(x_, ast.Name) and x_.id in ren:
+                                x_.id = ren[x_.id]
+                        return _elements(expr, at, depth + 1)
         raise _Und(f"collection `{t[:50]}`")
 
     def _raise(e):
